@@ -140,6 +140,13 @@ def run(prop):
         if p.returncode != 0:
             raise variants.Skip("bin/rename-twin failed: %s" % p.stdout.decode("utf-8", "replace")[-200:])
     todo.append(("twin:RN", None, "silent", {"apply": _rn, "rules": []}))
+
+    def _ifs(d):
+        # every Python if/else swapped under a negated test, `if a and b:` nested, conditional expressions swapped (bin/ifswap-twin)
+        p = subprocess.run([os.path.join(core.VERIF, "bin", "ifswap-twin"), d], stdout=subprocess.PIPE, stderr=subprocess.STDOUT)
+        if p.returncode != 0:
+            raise variants.Skip("bin/ifswap-twin failed: %s" % p.stdout.decode("utf-8", "replace")[-200:])
+    todo.append(("twin:IFS", None, "silent", {"apply": _ifs, "rules": []}))
     with ThreadPoolExecutor(max_workers=int(os.environ.get("VP_JOBS", "16"))) as ex:
         results = list(ex.map(lambda t: _one(prop, *t), todo))
     for res in results:
